@@ -1,5 +1,5 @@
 CFG = {
-    "extract": "save_order",
+    "extract": ["save_order", "data_request"],
     "lean_targets": ["Norad.Props.C17"],
     "audit": "Norad/Audit/C17.lean",
     "rule": ("Font::load_requested_data vs Font::load on generated format-3 trees (0-3 extra layers in varying file order, default layer named or not, every optional "
@@ -27,7 +27,8 @@ MANIFEST = {
              " Second phase: file-level partial_eq_restricted_full, partial_succeeds_if_full_does and unrequested_files_not_read (AgreeOnReadSet) are proved."
              " Third phase: 10 filter shapes (two builder-order shapes added) and trees with absent optional files."
              " Source-level tie: source_switches_match_model - the request.<switch> -> file table extracted from fn load_impl equals the table MEASURED on loadImpl (which corrupt file makes which single-switch load fail), by decide."
-             " Last phase: Req.apply (documented meaning of DataRequest calls applied in order) with the laws all_none_reset, later_call_wins, part_call_touches_only_its_switch, filter_then_default_keeps_predicate, layers_after_filter, call_idempotent; the driver recomputes the request of every recipe with Req.apply and disagrees if the harness's interpreter differs."),
+             " Last phase: Req.apply (documented meaning of DataRequest calls applied in order) with the laws all_none_reset, later_call_wins, part_call_touches_only_its_switch, filter_then_default_keeps_predicate, layers_after_filter, call_idempotent; the driver recomputes the request of every recipe with Req.apply and disagrees if the harness's interpreter differs."
+             " Session 2026-09-29: tools/extract_data_request.py translates src/data_request.rs (both structs, every method of DataRequest / LayerFilter, assignment by assignment) into Generated/DataRequest.lean; source_request_builders_eq_model (constructors, every builder call on every request, every chain of calls = Req.apply; the public builders are exactly the model's calls), source_layer_filter_eq_model (should_load clause by clause, includes_default_layer), source_partial_eq_restricted_full (the partial-load theorem for the requests the regenerated builders build)."),
     "design_ref": "5 / C17, 8",
     "note": "trusted: Lean kernel + 3 standard axioms; harness/driver glue; parsers abstract; see docs/notes/C17.md",
     "technique": "Lean 4 proof about a switch-guarded load model + exhaustive differential partial/full loads with corrupted un-requested files",
